@@ -233,3 +233,32 @@ def check_walkers(ctx, module_names: typing.Iterable[str]):
   """TRAV-rec on the recursive tree walkers of the given modules."""
   from ..rules import trav
   return trav.check_recursive_walkers(ctx, funcs(ctx, [n for n in module_names if n in ctx.ix.modules]), exempt=WALK_EXEMPT)
+
+
+SHARED_CLAUSES = {
+  "color": " (FIN-color) the shared colour parser, interpreted on a table of <color> values (hex with and without alpha, alpha 00, rgb(), rgba(), named colours in any case) "
+           "returns exactly those components, and raises on values with anything before or after a colour or with the wrong number of digits / components;",
+  "text": " (ID-text) model.Text, interpreted on composed, decomposed and compatibility characters, stores the string it is given code point for code point (no normalisation between reader and writer);",
+  "validators": " (VAL-strict) every style property whose type is an enumeration or bool rejects, interpreted, the raw tokens of the enumeration and the numbers 0 / 1, and LengthType rejects raw unit symbols "
+                "and non-numbers: tests by identity (`is DisplayType.none`, `units is Units.px`) in the snapshot and the writers rely on that;",
+  "truthy": " (LINT-n) no result of a getter declared Optional[number] (get_begin, get_end, ...) and no parameter annotated so is tested by truthiness: 0 is a legal offset distinct from None;",
+}
+
+
+def check_shared_helpers(ctx, color=False, text=False, validators=False, truthy_modules=None):
+  """Value-level functions of the shared modules (utils, model, style_properties) that the anchored code relies on."""
+  from ..rules import probes, lint as _lint
+  if color:
+    n = probes.check_color_parser(ctx)
+    ctx.floor("FIN-color", "colour probes decided", n, 20)
+  if text:
+    n = probes.check_text_identity(ctx)
+    ctx.floor("ID-text", "text probes decided", n, 10)
+  if validators:
+    n = probes.check_validators_strict(ctx)
+    ctx.floor("VAL-strict", "validator probes decided", n, 60)
+  if truthy_modules:
+    names = [n_ for n_ in dict.fromkeys(truthy_modules) if n_ in ctx.ix.modules]
+    fs = [f for n_ in names for f in ctx.ix.funcs_in(n_)]
+    _lint.optional_number_truthiness(ctx, fs)
+    ctx.ok("LINT-n", f"{len(names)} modules|no optional number is tested by truthiness", "src/main/python/ttconv", f"{len(fs)} functions scanned")
